@@ -9,6 +9,7 @@ import (
 
 	"github.com/dave/dst/decorator/resolver"
 	"github.com/dave/dst/decorator/resolver/guess"
+	"github.com/dave/dst/verifhook"
 )
 
 func New() *DecoratorResolver {
@@ -31,6 +32,7 @@ type DecoratorResolver struct {
 }
 
 func (r *DecoratorResolver) ResolveIdent(file *ast.File, parent ast.Node, parentField string, id *ast.Ident) (string, error) {
+	verifhook.Point("goast.ResolveIdent")
 
 	if r.RestorerResolver == nil {
 		r.RestorerResolver = guess.New()
@@ -67,6 +69,7 @@ func (r *DecoratorResolver) ResolveIdent(file *ast.File, parent ast.Node, parent
 func (r *DecoratorResolver) imports(file *ast.File) (map[string]string, error) {
 	r.filesM.Lock()
 	defer r.filesM.Unlock()
+	verifhook.Point("goast.imports.locked")
 
 	if r.files == nil {
 		r.files = map[*ast.File]map[string]string{}
@@ -77,6 +80,7 @@ func (r *DecoratorResolver) imports(file *ast.File) (map[string]string, error) {
 		return imports, nil
 	}
 
+	verifhook.Point("goast.imports.miss")
 	imports = map[string]string{}
 	var done bool
 	var outer error
